@@ -5,87 +5,9 @@
    up to events that are inert for a dead m (Life/Strip.v). *)
 From Coq Require Import List NArith Bool Lia PeanoNat.
 From DesVerif Require Import Common.Fuel Life.Model Life.Base Life.Step Life.Trace Life.Frame Life.Inert Life.Inv Life.Events
-  Life.Restart Life.Agree Life.Strip Life.Quiet.
+  Life.Restart Life.Agree Life.Strip Life.Quiet Life.SilentBase.
 Import ListNotations.
 Open Scope N_scope.
-
-(* ---- small facts ---- *)
-Lemma around_fst sc now i f w :
-  fst (around sc now i f w) = fst (buf_process (cfg sc i) now i (deactivate i (x_w (f {| x_w := activate now i w; x_log := [] |})))).
-Proof. unfold around. destruct (buf_process _ _ _ _). reflexivity. Qed.
-
-Lemma flush_rt_addok m i : i <> m -> forall adds f, Forall (add_ok i) adds ->
-  restart_times m (fes_flush adds f) = restart_times m f.
-Proof.
-  intros Hi. induction adds as [|p adds IH]; intros f H; cbn [fes_flush fold_left]; [reflexivity|].
-  inversion H; subst. fold (fes_flush adds (fes_add (fst p) (snd p) f)). rewrite IH by assumption.
-  apply fes_add_rt_other. destruct p as [t e]. cbn [fst snd]. destruct H2 as [Hm|[Hw|Hr]]; cbn [snd] in *.
-  - apply msg_not_restart, Hm.
-  - subst e. reflexivity.
-  - subst e. unfold is_restart. cbn [snd]. apply N.eqb_neq. exact Hi.
-Qed.
-
-Lemma stage_list_1 : stage_list 1 = [0].
-Proof. reflexivity. Qed.
-
-(* ---- components of the world after deactivate / buf_process ---- *)
-Definition nw_after (x : mst) : option N :=
-  match timers x with (t, _) :: _ => if lt_nw t (nw x) then Some t else nw x | [] => nw x end.
-
-Lemma deactivate_mod_eq i w : w_mod (deactivate i w) i = set_nw (w_mod w i) (nw_after (w_mod w i)).
-Proof.
-  unfold deactivate, nw_after. destruct (timers (w_mod w i)) as [|[t tk] r].
-  - cbn [w_mod set_cur]. destruct (w_mod w i); reflexivity.
-  - destruct (lt_nw t (nw (w_mod w i))).
-    + wsimpl. rewrite N.eqb_refl. reflexivity.
-    + cbn [w_mod set_cur]. destruct (w_mod w i); reflexivity.
-Qed.
-
-Definition consumed (now : N) (x : mst) : mst :=
-  {| active := false; inc := inc x + 1; bud := bud x; shut := None; nw := nw_bump now (nw x);
-     timers := []; ready := []; tpanics := tpanics x |}.
-
-Lemma buf_process_mod c now i w :
-  w_mod (fst (buf_process c now i w)) i = match shut (w_mod w i) with Some _ => consumed now (w_mod w i) | None => w_mod w i end.
-Proof.
-  unfold buf_process, shutdown_part. cbn [w_mod set_buf set_fes].
-  destruct (shut (w_mod w i)) as [[t|]|]; cbn [fst]; wsimpl; rewrite ?N.eqb_refl; reflexivity.
-Qed.
-
-Lemma buf_process_fes c now i w :
-  w_fes (fst (buf_process c now i w)) = fes_flush (restart_of i (w_mod w i)) (fes_flush (w_buf w) (w_fes w)).
-Proof.
-  unfold buf_process, shutdown_part, restart_of. cbn [w_mod set_buf set_fes].
-  destruct (shut (w_mod w i)) as [[t|]|]; reflexivity.
-Qed.
-
-Lemma activate_shut now i w : shut (w_mod (activate now i w) i) = shut (w_mod w i).
-Proof. unfold activate. destruct (split_due now (timers (w_mod w i))). wsimpl. rewrite N.eqb_refl. reflexivity. Qed.
-
-(* an event of a module that is inactive without a pending request *)
-Lemma around_inactive sc0 now i f w : active (w_mod w i) = false -> shut (w_mod w i) = None -> w_buf w = [] ->
-  (forall s, active (w_mod (x_w s) i) = false -> f s = s) ->
-  snd (around sc0 now i f w) = [] /\
-  w_fes (fst (around sc0 now i f w)) = fes_flush (wake_of i (w_mod (activate now i w) i)) (w_fes w) /\
-  (forall j, j <> i -> w_mod (fst (around sc0 now i f w)) j = w_mod w j) /\
-  active (w_mod (fst (around sc0 now i f w)) i) = false /\ shut (w_mod (fst (around sc0 now i f w)) i) = None /\
-  w_buf (fst (around sc0 now i f w)) = [].
-Proof.
-  intros Ha Hs Hb Hf.
-  assert (E : f {| x_w := activate now i w; x_log := [] |} = {| x_w := activate now i w; x_log := [] |})
-    by (apply Hf; cbn [x_w]; rewrite activate_active; exact Ha).
-  assert (Hsd : shut (w_mod (deactivate i (activate now i w)) i) = None)
-    by (rewrite deactivate_mod_eq; cbn [shut set_nw]; rewrite activate_shut; exact Hs).
-  split; [|split; [|split; [|split; [|split]]]].
-  - unfold around. rewrite E. cbn [x_w x_log app]. unfold buf_process, shutdown_part. cbn [w_mod set_buf set_fes].
-    rewrite Hsd. reflexivity.
-  - rewrite around_fst, E. cbn [x_w]. rewrite buf_process_fes. unfold restart_of. rewrite Hsd.
-    rewrite deactivate_buf, activate_buf, Hb. cbn [fes_flush fold_left]. rewrite deactivate_fes, activate_fes. reflexivity.
-  - intros j Hj. rewrite around_fst, E. cbn [x_w]. rewrite buf_process_oth, deactivate_oth by exact Hj. apply activate_oth, Hj.
-  - rewrite around_fst, E. cbn [x_w]. rewrite buf_process_mod, Hsd, deactivate_mod_eq. cbn [active set_nw]. rewrite activate_active. exact Ha.
-  - rewrite around_fst, E. cbn [x_w]. rewrite buf_process_mod, Hsd. exact Hsd.
-  - apply around_glob.
-Qed.
 
 Section Silent.
 Variables (sc : script) (m : N).
@@ -648,19 +570,6 @@ Proof.
 Qed.
 
 (* ---- the theorem ---- *)
-Lemma gen_no_end sc0 : forall w tr, Gen sc0 w tr -> filter (fun e => negb (is_end e)) tr = tr.
-Proof.
-  induction 1 as [|w tr e w' HG IH Hs]; [reflexivity|]. rewrite filter_app, IH. cbn [filter].
-  destruct Hs; reflexivity.
-Qed.
-
-Lemma end_seq_all_end sc0 now : forall ms w, filter (fun e => negb (is_end e)) (snd (end_seq sc0 now ms w)) = [].
-Proof.
-  induction ms as [|i ms IH]; intros w; cbn [end_seq]; [reflexivity|].
-  destruct (end_seq sc0 now ms (fst (end_rec sc0 now i w))) as [w2 es] eqn:Es. cbn [snd filter].
-  replace es with (snd (end_seq sc0 now ms (fst (end_rec sc0 now i w)))) by (rewrite Es; reflexivity). apply IH.
-Qed.
-
 Definition events_of (tr : list erec) : list erec := filter (fun e => negb (is_end e)) tr.
 
 Theorem others_as_if_silent :
